@@ -102,7 +102,7 @@ func splitBy(data []byte, sizes []int) [][]byte {
 func runC17(h *H) {
 	imports := []string{"From GoImap.Base Require Import Bytes.", "From GoImap.Model Require Import StartTLS StartTLSCorr."}
 	corr := h.NewCorr("switch", imports, "tls_mismatches", 400).Type("tls_case")
-	h.Rule("server side: the STARTTLS command line followed, in the same bursts, by (a) plaintext commands with their own tags (LOGIN, CREATE, NOOP, several lines), (b) a prefix of length 0..n of the genuine TLS ClientHello, cut into network writes at every split pattern of a small family; oracle: a plaintext suffix is never answered nor executed (no backend call, no plaintext response after the STARTTLS OK) and makes the handshake fail, a genuine TLS prefix makes the handshake succeed with nothing lost or duplicated and LOGIN then works over TLS; after the failed handshake plaintext sent in a later write is not executed either; one server behind an implicit-TLS and a plaintext listener tells plaintext connections LOGINDISABLED/STARTTLS and no AUTH= whichever connection came first; servers with and without InsecureAuth never run LOGIN — nor AUTHENTICATE with a SessionSASL backend — before TLS unless InsecureAuth. Client side: a scripted server appends plaintext responses (CAPABILITY, EXISTS, BYE, tagged lines) to its STARTTLS OK under the same split patterns: the client must not act on them (capabilities unchanged, first command fails in the TLS layer), and greetings PREAUTH and BYE make NewStartTLS fail. Model: for the same chunking the model's switch must hand exactly the suffix to the TLS layer. Non-trivial = non-empty suffix; distinct by (side, suffix, chunking).")
+	h.Rule("server side: the STARTTLS command line followed, in the same bursts, by (a) plaintext commands with their own tags (LOGIN, CREATE, NOOP, several lines), (b) a prefix of length 0..n of the genuine TLS ClientHello, cut into network writes at every split pattern of a small family; oracle: a plaintext suffix is never answered nor executed (no backend call, no plaintext response after the STARTTLS OK) and makes the handshake fail, a genuine TLS prefix makes the handshake succeed with nothing lost or duplicated and LOGIN then works over TLS; after the failed handshake plaintext sent in a later write is not executed either; one server behind an implicit-TLS and a plaintext listener tells plaintext connections LOGINDISABLED/STARTTLS and no AUTH= whichever connection came first; servers with and without InsecureAuth never run LOGIN — nor AUTHENTICATE with a SessionSASL backend — before TLS unless InsecureAuth. Client side: a scripted server appends plaintext responses (CAPABILITY, EXISTS, BYE, tagged lines) to its STARTTLS OK — whose own shape varies: plain text, [ALERT], a [CAPABILITY ...] code, an unknown code with arguments, no text — under the same split patterns: the client must not act on them and, once NewStartTLS has succeeded, the first bytes the peer receives on the raw socket are a TLS handshake record, never a plaintext command (capabilities unchanged, first command fails in the TLS layer), and greetings PREAUTH and BYE make NewStartTLS fail. Model: for the same chunking the model's switch must hand exactly the suffix to the TLS layer. Non-trivial = non-empty suffix; distinct by (side, suffix, chunking).")
 
 	line := "A1 STARTTLS\r\n"
 	plainSuffixes := []string{"A2 LOGIN user pass\r\n", "A2 NOOP\r\n", "A2 CREATE evil\r\nA3 LOGIN u p\r\n", "A2 LOGIN {4+}\r\nuser pass\r\n", "\r\n", "x"}
@@ -372,155 +372,212 @@ func runC17(h *H) {
 
 	// ---- client side ----
 	injected := []string{"", "* OK [CAPABILITY IMAP4rev1 XINJECTED] hi\r\n", "* CAPABILITY IMAP4rev1 XINJECTED\r\n", "* 5 EXISTS\r\n", "* BYE go away\r\n", "T2 OK injected\r\n", "* OK x\r\n* CAPABILITY IMAP4rev1 XINJECTED\r\n"}
+	// the shape of the tagged OK that ends the plaintext part is the server's (or the man in the
+	// middle's) choice: bare text, a response code without arguments, a CAPABILITY code (a server
+	// may announce its capabilities there), an unknown code with arguments, no text at all
+	okShapes := []string{" begin TLS", " [ALERT] begin TLS", " [CAPABILITY IMAP4rev1 AUTH=PLAIN] Begin TLS negotiation now", " [XUNKNOWN 1 (2 3)] go ahead", " [CAPABILITY IMAP4rev1 STARTTLS LOGINDISABLED]"}
+	type cliCase struct {
+		greeting, inj, okShape string
+		ci                     int
+	}
+	var cliCases []cliCase
 	for _, greeting := range []string{"* OK hello\r\n", "* OK [CAPABILITY IMAP4rev1 STARTTLS] hello\r\n", "* PREAUTH hello\r\n", "* BYE busy\r\n"} {
 		for _, inj := range injected {
-			for ci, sizes := range chunkings {
+			for ci := range chunkings {
 				if (greeting != "* OK hello\r\n") && ci > 1 {
 					continue
 				}
-				desc := map[string]interface{}{"side": "client", "greeting": greeting, "injected": inj, "chunks": sizes}
-				h.InFlight(desc)
-				ln, err := net.Listen("tcp", "127.0.0.1:0")
-				if err != nil {
-					panic(err)
-				}
-				var wg sync.WaitGroup
-				wg.Add(1)
-				var srvSawTLSCmd string
-				go func() {
-					defer wg.Done()
-					sc, err := ln.Accept()
-					if err != nil {
-						return
-					}
-					defer sc.Close()
-					sc.SetDeadline(time.Now().Add(30 * time.Second))
-					sbr := bufio.NewReader(sc)
-					io.WriteString(sc, greeting)
-					var tag []string
-					for {
-						l, err := sbr.ReadString('\n')
-						if err != nil {
-							return
-						}
-						tag = strings.Fields(l)
-						if len(tag) >= 2 && strings.ToUpper(tag[1]) == "CAPABILITY" {
-							// the client may ask for the capabilities first (the greeting carries
-							// none): a legitimate plaintext command before STARTTLS
-							fmt.Fprintf(sc, "* CAPABILITY IMAP4rev1 STARTTLS LOGINDISABLED\r\n%s OK done\r\n", tag[0])
-							continue
-						}
-						break
-					}
-					if len(tag) < 2 || strings.ToUpper(tag[1]) != "STARTTLS" {
-						return
-					}
-					reply := []byte(tag[0] + " OK begin TLS\r\n" + inj)
-					writeChunks(sc, reply, sizes)
-					tsrv := tls.Server(&readerConn{Conn: sc, r: sbr}, testTLSConfig)
-					if err := tsrv.Handshake(); err != nil {
-						return
-					}
-					tbr := bufio.NewReader(tsrv)
-					for {
-						l, err := tbr.ReadString('\n')
-						if err != nil {
-							return
-						}
-						srvSawTLSCmd = l
-						f := strings.Fields(l)
-						if len(f) >= 2 && strings.ToUpper(f[1]) == "CAPABILITY" {
-							fmt.Fprintf(tsrv, "* CAPABILITY IMAP4rev1 AUTH=PLAIN\r\n%s OK done\r\n", f[0])
-						} else if len(f) >= 1 {
-							fmt.Fprintf(tsrv, "%s OK done\r\n", f[0])
-						}
-					}
-				}()
-				conn, err := net.Dial("tcp", ln.Addr().String())
-				if err != nil {
-					panic(err)
-				}
-				type result struct {
-					c   *imapclient.Client
-					err error
-				}
-				resCh := make(chan result, 1)
-				go func() {
-					c, err := imapclient.NewStartTLS(conn, &imapclient.Options{TLSConfig: &tls.Config{InsecureSkipVerify: true}})
-					resCh <- result{c, err}
-				}()
-				var res result
-				select {
-				case res = <-resCh:
-				case <-time.After(20 * time.Second):
-					h.Fail("client-starttls-hang", "NewStartTLS did not return", desc)
-					conn.Close()
-					ln.Close()
-					continue
-				}
-				ok := res.err == nil
-				switch {
-				case strings.HasPrefix(greeting, "* PREAUTH"):
-					if ok {
-						h.Fail("client-accepts-preauth", "NewStartTLS accepted a PREAUTH greeting on an unencrypted connection", desc)
-					}
-				case strings.HasPrefix(greeting, "* BYE"):
-					if ok {
-						h.Fail("client-accepts-bye", "NewStartTLS succeeded after a BYE greeting", desc)
-					}
-				default:
-					if !ok {
-						if inj == "" {
-							h.Fail("client-starttls-failed", fmt.Sprintf("NewStartTLS failed on a clean exchange: %v", res.err), desc)
-						}
-					} else {
-						// the injected plaintext must not have been interpreted
-						done := make(chan struct{})
-						var caps imap.CapSet
-						var noopErr error
-						go func() {
-							caps = res.c.Caps()
-							noopErr = res.c.Noop().Wait()
-							close(done)
-						}()
-						select {
-						case <-done:
-						case <-time.After(5 * time.Second):
-							h.Fail("client-hang-after-starttls", "Caps/Noop after STARTTLS did not return", desc)
-						}
-						if caps.Has("XINJECTED") {
-							h.Fail("client-uses-plaintext-injected", "the client adopted capabilities from plaintext injected after the STARTTLS OK", desc)
-						}
-						if inj == "" {
-							if noopErr != nil || !strings.Contains(srvSawTLSCmd, "NOOP") {
-								h.Fail("client-tls-broken", fmt.Sprintf("NOOP over the upgraded connection failed: %v (server saw %q)", noopErr, srvSawTLSCmd), desc)
-							}
-						} else if noopErr == nil {
-							h.Fail("client-ignores-injection", "a command succeeded although plaintext was injected in front of the TLS handshake (the injected bytes must reach the TLS layer and break it)", desc)
-						}
-					}
-				}
-				if res.c != nil {
-					res.c.Close()
-				}
-				conn.Close()
-				ln.Close()
-				wg.Wait()
-				key := ""
-				if inj != "" {
-					key = fmt.Sprintf("cli|%s|%s|%d", greeting, inj, ci)
-				}
-				h.Eval(key)
-				h.Hist("client:" + strings.Fields(greeting)[1])
-				var cs []string
-				reply := []byte("T1 OK begin TLS\r\n" + inj)
-				for _, ch := range splitBy(reply, sizes) {
-					cs = append(cs, coqHx(ch))
-				}
-				corr.Add(fmt.Sprintf("(%s, %s, %s, %s, %s)", coqList(cs), coqHxS("T1 OK begin TLS\r"), coqHxS(inj), coqBool(inj == ""), coqBool(inj == "")), desc)
+				cliCases = append(cliCases, cliCase{greeting, inj, okShapes[0], ci})
 			}
 		}
 	}
+	for si, shape := range okShapes[1:] {
+		for gi, greeting := range []string{"* OK hello\r\n", "* OK [CAPABILITY IMAP4rev1 STARTTLS] hello\r\n"} {
+			for ii, inj := range injected {
+				for ci := range chunkings {
+					// quick tier: one split pattern per (shape, greeting, suffix), rotating through all
+					if !h.Thorough() && ci != (si+gi+ii)%len(chunkings) {
+						continue
+					}
+					cliCases = append(cliCases, cliCase{greeting, inj, shape, ci})
+				}
+			}
+		}
+	}
+	for _, cc := range cliCases {
+		greeting, inj, okShape, ci, sizes := cc.greeting, cc.inj, cc.okShape, cc.ci, chunkings[cc.ci]
+		desc := map[string]interface{}{"side": "client", "greeting": greeting, "injected": inj, "chunks": sizes, "starttls_ok": okShape}
+		h.InFlight(desc)
+		ln, err := net.Listen("tcp", "127.0.0.1:0")
+		if err != nil {
+			panic(err)
+		}
+		var wg sync.WaitGroup
+		wg.Add(1)
+		var sawMu sync.Mutex
+		var srvSawTLS string // every command line the peer received over TLS
+		sawTLS := func() string { sawMu.Lock(); defer sawMu.Unlock(); return srvSawTLS }
+		var afterOK headRecorder // what the peer received on the raw socket after its STARTTLS OK
+		go func() {
+			defer wg.Done()
+			sc, err := ln.Accept()
+			if err != nil {
+				return
+			}
+			defer sc.Close()
+			sc.SetDeadline(time.Now().Add(30 * time.Second))
+			sbr := bufio.NewReader(sc)
+			io.WriteString(sc, greeting)
+			var tag []string
+			for {
+				l, err := sbr.ReadString('\n')
+				if err != nil {
+					return
+				}
+				tag = strings.Fields(l)
+				if len(tag) >= 2 && strings.ToUpper(tag[1]) == "CAPABILITY" {
+					// the client may ask for the capabilities first (the greeting carries
+					// none): a legitimate plaintext command before STARTTLS
+					fmt.Fprintf(sc, "* CAPABILITY IMAP4rev1 STARTTLS LOGINDISABLED\r\n%s OK done\r\n", tag[0])
+					continue
+				}
+				break
+			}
+			if len(tag) < 2 || strings.ToUpper(tag[1]) != "STARTTLS" {
+				return
+			}
+			reply := []byte(tag[0] + " OK" + okShape + "\r\n" + inj)
+			writeChunks(sc, reply, sizes)
+			tsrv := tls.Server(&readerConn{Conn: sc, r: io.TeeReader(sbr, &afterOK)}, testTLSConfig)
+			if err := tsrv.Handshake(); err != nil {
+				return
+			}
+			tbr := bufio.NewReader(tsrv)
+			for {
+				l, err := tbr.ReadString('\n')
+				if err != nil {
+					return
+				}
+				sawMu.Lock()
+				srvSawTLS += l
+				sawMu.Unlock()
+				f := strings.Fields(l)
+				if len(f) >= 2 && strings.ToUpper(f[1]) == "CAPABILITY" {
+					fmt.Fprintf(tsrv, "* CAPABILITY IMAP4rev1 AUTH=PLAIN\r\n%s OK done\r\n", f[0])
+				} else if len(f) >= 1 {
+					fmt.Fprintf(tsrv, "%s OK done\r\n", f[0])
+				}
+			}
+		}()
+		conn, err := net.Dial("tcp", ln.Addr().String())
+		if err != nil {
+			panic(err)
+		}
+		type result struct {
+			c   *imapclient.Client
+			err error
+		}
+		resCh := make(chan result, 1)
+		go func() {
+			c, err := imapclient.NewStartTLS(conn, &imapclient.Options{TLSConfig: &tls.Config{InsecureSkipVerify: true}})
+			resCh <- result{c, err}
+		}()
+		var res result
+		select {
+		case res = <-resCh:
+		case <-time.After(20 * time.Second):
+			h.Fail("client-starttls-hang", "NewStartTLS did not return", desc)
+			conn.Close()
+			ln.Close()
+			continue
+		}
+		ok := res.err == nil
+		switch {
+		case strings.HasPrefix(greeting, "* PREAUTH"):
+			if ok {
+				h.Fail("client-accepts-preauth", "NewStartTLS accepted a PREAUTH greeting on an unencrypted connection", desc)
+			}
+		case strings.HasPrefix(greeting, "* BYE"):
+			if ok {
+				h.Fail("client-accepts-bye", "NewStartTLS succeeded after a BYE greeting", desc)
+			}
+		default:
+			if !ok {
+				if inj == "" {
+					h.Fail("client-starttls-failed", fmt.Sprintf("NewStartTLS failed on a clean exchange: %v", res.err), desc)
+				}
+			} else {
+				// the injected plaintext must not have been interpreted
+				done := make(chan struct{})
+				var caps imap.CapSet
+				var noopErr error
+				go func() {
+					caps = res.c.Caps()
+					noopErr = res.c.Noop().Wait()
+					close(done)
+				}()
+				select {
+				case <-done:
+				case <-time.After(5 * time.Second):
+					h.Fail("client-hang-after-starttls", "Caps/Noop after STARTTLS did not return", desc)
+				}
+				if caps.Has("XINJECTED") {
+					h.Fail("client-uses-plaintext-injected", "the client adopted capabilities from plaintext injected after the STARTTLS OK", desc)
+				}
+				if inj == "" {
+					if saw := sawTLS(); noopErr != nil || !strings.Contains(saw, "NOOP") {
+						h.Fail("client-tls-broken", fmt.Sprintf("NOOP over the upgraded connection failed: %v (server saw %q)", noopErr, saw), desc)
+					}
+				} else if noopErr == nil {
+					h.Fail("client-ignores-injection", "a command succeeded although plaintext was injected in front of the TLS handshake (the injected bytes must reach the TLS layer and break it)", desc)
+				}
+			}
+		}
+		if res.c != nil {
+			res.c.Close()
+		}
+		conn.Close()
+		ln.Close()
+		wg.Wait()
+		// a client that reported a successful upgrade may only send TLS records from then on:
+		// the first thing on the raw socket after the STARTTLS OK has to be a handshake record
+		if raw := afterOK.Bytes(); ok && len(raw) > 0 && raw[0] != 0x16 {
+			h.Fail("client-plaintext-after-starttls", fmt.Sprintf("NewStartTLS succeeded, yet the client carried on in plaintext: after its STARTTLS OK the peer received %q", raw), desc)
+		}
+		key := ""
+		if inj != "" || okShape != okShapes[0] {
+			key = fmt.Sprintf("cli|%s|%s|%d|%s", greeting, inj, ci, okShape)
+		}
+		h.Eval(key)
+		h.Hist("client:" + strings.Fields(greeting)[1])
+		var cs []string
+		reply := []byte("T1 OK" + okShape + "\r\n" + inj)
+		for _, ch := range splitBy(reply, sizes) {
+			cs = append(cs, coqHx(ch))
+		}
+		corr.Add(fmt.Sprintf("(%s, %s, %s, %s, %s)", coqList(cs), coqHxS("T1 OK"+okShape+"\r"), coqHxS(inj), coqBool(inj == ""), coqBool(inj == "")), desc)
+	}
+}
+
+// headRecorder keeps the first bytes written to it (safe for use from two goroutines).
+type headRecorder struct {
+	mu sync.Mutex
+	b  []byte
+}
+
+func (f *headRecorder) Write(p []byte) (int, error) {
+	f.mu.Lock()
+	if room := 64 - len(f.b); room > 0 {
+		f.b = append(f.b, p[:min(len(p), room)]...)
+	}
+	f.mu.Unlock()
+	return len(p), nil
+}
+
+func (f *headRecorder) Bytes() []byte {
+	f.mu.Lock()
+	defer f.mu.Unlock()
+	return append([]byte(nil), f.b...)
 }
 
 // readerConn reads through a bufio.Reader that may already hold bytes of the connection.
